@@ -247,7 +247,7 @@ def unconfigure_known(X):
         mod = impl.plugin_name.split(".")[-1]
         if mod.startswith("verif_probe"):
             continue
-        if mod not in {"task", "logging", "provisional", "debugging", "build", "capture", "database"}:
+        if mod not in {"task", "logging", "provisional", "debugging", "build", "capture", "database", "collect"}:
             raise X.ExtractError(f"pytask_unconfigure implemented by unmodelled plugin {impl.plugin_name!r}")
 
 
